@@ -12,12 +12,12 @@ from .prng import stream, subseed
 OFFSETS = [1e3, -1e3, 1e5, -1e5]
 
 
-def panel(seed, n, offset=False):
+def panel(seed, n, offset=False, unbounded=False):
     """offset=True: the same family plus a constant (|f*| far from zero, as for log-likelihoods);
     the constant changes neither the minimiser nor the conditioning."""
     cases = []
     for i in range(n):
-        rng = stream(seed, f"c06{'o' if offset else ''}/{i}")
+        rng = stream(seed, f"c06{'o' if offset else ''}{'u' if unbounded else ''}/{i}")
         D = 1 + (i % 5)
         ev = [float(f"{10 ** rng.uniform(0, 2):.6g}") for _ in range(D)]
         c = [float(f"{rng.uniform(-4, 4):.6g}") for _ in range(D)]
@@ -29,6 +29,9 @@ def panel(seed, n, offset=False):
                    noise=None, noise_kind="none", cons=None, options=dict(random_seed=subseed(seed, f"c06seed/{i}")),
                    clock=dict(mode="const"), faults=[], monitors=[], fstar=(OFFSETS[i % len(OFFSETS)] if offset else 0.0),
                    gap_tol=1e-2, population="offset" if offset else "clean")
+        if unbounded:
+            # no hard bounds at all (fully unconstrained problem), same plausible box
+            scn["lb"], scn["ub"], scn["geom"], scn["population"] = None, None, "unbounded", "unbounded"
         cases.append(scn)
     return cases
 
@@ -74,7 +77,8 @@ def main(tier):
     n = 80 if tier == "quick" else 960
     n_off = 64 if tier == "quick" else 480
     n_warm = 24 if tier == "quick" else 240
-    cases = panel(seed, n) + panel(seed, n_off, offset=True) + warm_panel(seed, n_warm)
+    n_unb = 64 if tier == "quick" else 480
+    cases = panel(seed, n) + panel(seed, n_off, offset=True) + panel(seed, n_unb, unbounded=True) + warm_panel(seed, n_warm)
     t0 = time.time()
     recs = harness.run_batch(run.run_scenario, cases, timeout=600, report=rep)
     pairs = list(zip(cases, recs))
@@ -100,14 +104,15 @@ def main(tier):
                                 gap=r["gap"], evals_to_1e_2=r["evals_to_tol"], n_calls=r["n_calls"]))
     frac, med, ratios = judge_panel(pairs[:n])
     frac_o, med_o, ratios_o = judge_panel(pairs[n:n + n_off])
-    for nn, fr, md, off in ((n, frac, med, False), (n_off, frac_o, med_o, True)):
+    frac_u, med_u, ratios_u = judge_panel(pairs[n + n_off:n + n_off + n_unb])
+    for nn, fr, md, off in ((n, frac, med, False), (n_off, frac_o, med_o, True), (n_unb, frac_u, med_u, "unbounded")):
         if nn >= 60:
-            tag = "-offset" if off else ""
+            tag = "-unbounded" if off == "unbounded" else ("-offset" if off else "")
             if fr < 0.90:
-                rep.add_violation("panel-accuracy" + tag, f"only {fr:.3f} of the {'offset ' if off else ''}panel of {nn} returned a value within 1e-3 of the minimum (>= 0.90 required)",
+                rep.add_violation("panel-accuracy" + tag, f"only {fr:.3f} of the {(off if isinstance(off, str) else 'offset') + ' ' if off else ''}panel of {nn} returned a value within 1e-3 of the minimum (>= 0.90 required)",
                                   dict(seed=seed, n=nn, offset=off), "c06panel")
             if md > 40:
-                rep.add_violation("panel-speed" + tag, f"{'offset ' if off else ''}panel median evaluations-to-1e-2 is {md:.1f}*D (<= 40*D required)",
+                rep.add_violation("panel-speed" + tag, f"{(off if isinstance(off, str) else 'offset') + ' ' if off else ''}panel median evaluations-to-1e-2 is {md:.1f}*D (<= 40*D required)",
                                   dict(seed=seed, n=nn, offset=off), "c06panel")
     wall = time.time() - t0
     fin = [x for x in ratios if np.isfinite(x)]
@@ -115,6 +120,8 @@ def main(tier):
         evaluations=len([r for r in recs if r is not None]),
         distinct_nontrivial=len({harness.scn_digest(s) for s, r in pairs if r is not None and r["outcome"] == "completed"}),
         rule="seeded panel of random rotated quadratics (eigenvalues log-uniform in [1,100], minimiser in [-4,4]^D, x0 in [-5,5]^D, box [-10,10]^D, D cycling 1..5, default options); non-trivial = completed run",
+        unbounded_panel=dict(n=n_unb, fraction_within_1e_3=frac_u, median_evals_to_1e_2_per_D=med_u,
+                             note="same family with no hard bounds (lower_bounds = upper_bounds = None)"),
         warm_start_runs=dict(n=n_warm, note="x0 = minimiser (half exactly on the initial search mesh); only never-worse-than-start is judged"),
         offset_panel=dict(n=n_off, offsets=OFFSETS, fraction_within_1e_3=frac_o, median_evals_to_1e_2_per_D=med_o,
                           note="same family plus a constant offset (|f*| up to 1e5): still smooth convex targets of the statement"),
@@ -132,7 +139,7 @@ def main(tier):
 
 
 def replay_panel(prop, cls, case):
-    cases = panel(case["seed"], case["n"], offset=bool(case.get("offset")))
+    cases = panel(case["seed"], case["n"], offset=(case.get("offset") is True), unbounded=(case.get("offset") == "unbounded"))
     res = pool.run_tasks(run.run_scenario, cases, timeout=600)
     pairs = [(s, r if st == "ok" else None) for s, (st, r) in zip(cases, res)]
     frac, med, _ = judge_panel(pairs)
